@@ -385,7 +385,10 @@ def apply_event(W, ev):
         key = tuple(ev[1])
         res, rank, adj, mu = ev[2]
         W.allocs[key].update(res, rank, adj, mu)
+        W.alloc_terms = getattr(W, 'alloc_terms', {})
         W.alloc_terms[key] = (rank, adj if adj is not None else 0)
+        configured_cap(W, W.apps[0].name)       # initialise the table
+        W.alloc_caps[key] = mu
     elif kind == 'bucket_state':
         # Node.set_state on a rack / pod (nothing in the master does this
         # today; the API allows it)
@@ -568,7 +571,8 @@ def c07_oracle(W, pre, placement, queues, queue_pre, tag=''):
                 continue
             if info['identity_invalid']:
                 continue
-            if app.final_rank == _sys.maxsize:
+            if app.final_rank == _sys.maxsize and configured_cap(W, name):
+                # over the utilisation cap its allocation is configured with
                 continue
             if after.get(name) == info['server']:
                 continue
@@ -609,6 +613,20 @@ def required_traits(W, name):
     own = W.spec['apps'][idx].get('traits', 0)
     key = getattr(W, 'app_alloc', {}).get(idx)
     return own | getattr(W, 'alloc_cfg_traits', {}).get(key, 0)
+
+
+def configured_cap(W, name):
+    """Does the allocation of the instance carry a utilisation cap, according
+    to the configuration the harness applied (spec + alloc_update events)?"""
+    key = getattr(W, 'app_alloc', {}).get(int(name[-10:]))
+    caps = getattr(W, 'alloc_caps', None)
+    if caps is None:
+        caps = {}
+        for a in W.spec.get('allocs', []):
+            caps[(a.get('label', '_default'),) + tuple(a['path'])] = \
+                a.get('max_utilization')
+        W.alloc_caps = caps
+    return caps.get(key) is not None
 
 
 def configured_label(W, name):
@@ -801,8 +819,8 @@ def c08_oracle(W, pre, placement, tag=''):
             continue
         if info['server'] is None:
             continue
-        if app.final_rank == _sys.maxsize or info['identity_invalid'] \
-                or info['renew']:
+        if (app.final_rank == _sys.maxsize and configured_cap(W, name)) \
+                or info['identity_invalid'] or info['renew']:
             continue
         if st == 'down':
             to = info['timeout']
